@@ -124,6 +124,15 @@ theorem intersect_mem (ls : List (List Nat)) (r : List Nat) (h : intersect ls = 
     subst h
     exact mem_intersect l0 rest x
 
+/-- Known finding C15-F1 (negation witness).  The full statement "mutually unsatisfiable recognised constraints
+are reported as errors" is false for the membership constraints: the intersection has no error outcome, an
+unsatisfiable conjunction `self.x in {0,1} and self.x in {2}` is answered with the empty literal set.
+Errors for unsatisfiable constraints are proved for the length dimension only
+(`reduce_err_iff_unsat`, `merge_err_iff_unsat`). -/
+theorem set_unsat_reported_full_fails :
+    ∃ ls, (¬ ∃ x, ∀ l ∈ ls, x ∈ l) ∧ intersect ls = some [] :=
+  ⟨[[0, 1], [2]], by simp, by rfl⟩
+
 /-- The only failure of the intersection is the violated pre-condition "at least one constraint". -/
 theorem intersect_none_iff (ls : List (List Nat)) : intersect ls = none ↔ ls = [] := by
   cases ls <;> simp [intersect]
